@@ -22,10 +22,12 @@ ELEM_WRAPPERS = {
     ("IntoFuture", "into_future"), ("IntoStream", "into_stream"), ("ManuallyDrop", "new"), ("MaybeDone", "new"),
     ("Box", "pin"), ("Pin", "new"), ("Pin", "new_unchecked"), ("Box", "new"), ("Fuse", "new"),
 }
+ELEM_LITERALS = {("MaybeDone", "Future"), ("ManuallyDrop", "ManuallyDrop")}
 CONTAINER_WRAPPERS = {
     ("FutureArray", "new"), ("FutureVec", "new"), ("Iterator", "collect"), ("Vec", "into_iter"), ("IntoIterator", "into_iter"),
     ("array", "into_iter"), ("param", "into"), ("Into", "into"), ("Vec", "into_boxed_slice"), ("Box", "into_pin"), ("Pin", "from"),
-    ("From", "from"), ("Box", "pin"), ("Vec", "from"),
+    ("From", "from"), ("Box", "pin"), ("Vec", "from"), ("Vec", "from_iter"), ("FromIterator", "from_iter"), ("Box", "from_iter"),
+    ("Iterator", "by_ref"), ("Iterator", "fuse"), ("Vec", "into_boxed_slice"), ("slice", "into_vec"), ("Box", "into_pin"),
 }
 MAPS = {("Iterator", "map"), ("array", "map")}
 
@@ -33,8 +35,13 @@ MAPS = {("Iterator", "map"), ("array", "map")}
 def peel_elem(t, root):
     """strip element wrappers; returns the innermost term"""
     n = 0
-    while isinstance(t, tuple) and t and t[0] == "call" and t[1] in ELEM_WRAPPERS and t[2] and n < 8:
-        t = t[2][0]
+    while isinstance(t, tuple) and t and n < 8:
+        if t[0] == "call" and t[1] in ELEM_WRAPPERS and t[2]:
+            t = t[2][0]
+        elif t[0] == "agg" and isinstance(t[1], tuple) and t[1] in ELEM_LITERALS and len(t[2]) == 1:
+            t = t[2][0]       # the constructor written out: `MaybeDone::Future(fut)`
+        else:
+            break
         n += 1
     return t
 
@@ -53,11 +60,58 @@ def _elem_fn_ok(M, f):
     return False
 
 
-def peel_container(M, t):
+ITER_ID = {"into_iter", "by_ref", "fuse"}
+
+
+def push_loop_source(M, bi, t):
+    """`let mut v = Vec::with_capacity(n); for x in src { v.push(wrap(x)); }`: when `t` is the fresh vector and the body
+    fills it by one push per item of a loop over `src` (every item, once, loop left only when the iterator is
+    exhausted), returns (src term, None); (None, reason) when the shape is there but wrong; (None, None) otherwise."""
+    if bi is None or not (t[0] == "call" and t[1] in (("Vec", "with_capacity"), ("Vec", "new"))):
+        return None, None
+    pushes = [s for s in bi.sites if s.key == ("Vec", "push") and s.arg(0) == t]
+    if not pushes:
+        return None, None
+    if len(pushes) != 1:
+        return None, "the children vector is pushed to in %d places" % len(pushes)
+    p = pushes[0]
+    r = scan.loop_item_root(peel_elem(p.arg(1), None))
+    loop = bi.body.innermost_loop(p.block)
+    if r is None or loop is None:
+        return None, "children are pushed outside a loop over the operand"
+    if peel_elem(p.arg(1), None) != ("field", ("variant", r, "Some"), 0):
+        return None, "the pushed child is not the loop item converted by into_future / into_stream"
+    nxt = bi.by_block.get(r[3])
+    if nxt is None or nxt.callee.name != "next":
+        return None, "the loop is not driven by Iterator::next"
+    se = bi.outcome_edges(nxt, "Some")
+    ne = bi.outcome_edges(nxt, "None")
+    ok, bad = bi.must_reach([x for _, x in se], [p.block], [loop[0]] + list(bi.return_blocks))
+    if not se or not ok:
+        return None, "an item of the operand can skip the push"
+    for rb in bi.return_blocks:
+        if not bi.guarded_by(rb, ne):
+            return None, "the fill loop can end before the operand is exhausted"
+    it = nxt.arg(0)
+    k = 0
+    while it[0] == "call" and it[1][1] in ITER_ID and it[2] and k < 6:
+        it = it[2][0]
+        k += 1
+    return it, None
+
+
+def peel_container(M, t, bi=None):
     """strip order/length preserving container adapters; returns (innermost term, reason or None)"""
     n = 0
     while isinstance(t, tuple) and t and t[0] == "call" and n < 12:
         key = t[1]
+        src, why = push_loop_source(M, bi, t)
+        if why:
+            return t, why
+        if src is not None:
+            t = src
+            n += 1
+            continue
         if key in MAPS and len(t[2]) >= 2:
             if not _elem_fn_ok(M, t[2][1]):
                 return t, "children are mapped through something other than into_future / into_stream"
@@ -158,7 +212,7 @@ def rule_children(ctx, M, u, rule):
         if v is None:
             probs.append("children container not found in the constructed value")
         else:
-            inner, why = peel_container(M, v)
+            inner, why = peel_container(M, v, bi=bi)
             n += 1
             if why:
                 probs.append(why)
@@ -184,7 +238,8 @@ def rule_children(ctx, M, u, rule):
             car |= flow.carrier_locals(bj, op)
         # the operand itself (a by-value parameter) is a carrier too
         car |= {l for l in range(1, b_.argc + 1)}
-        muts = [(s, l) for s, l in flow.in_place_mutators(bj, car) if s.key not in flow.ALLOWED_MUTATORS and not _reads_only(s)]
+        muts = [(s, l) for s, l in flow.in_place_mutators(bj, car) if s.key not in flow.ALLOWED_MUTATORS and not _reads_only(s)
+                and not (s.key == ("Vec", "push") and push_loop_source(M, bj, s.arg(0))[0] is not None)]
         for s, l in muts[:3]:
             probs.append("%s receives &mut of the children on their way into the combinator" % ("%s::%s" % s.key))
     ctx.check(not probs, rule, where, "%s: every operand becomes the child of its own position (converted by into_future / into_stream only)" % m.label,
